@@ -147,6 +147,79 @@ func c19Setup(seed uint64, pairs ...int) (*c19World, error) {
 	return x, nil
 }
 
+// c04IBCTargetCase (run by the C04 check): deposits whose target is another chain over IBC. The token has a
+// voucher alias on that channel and the transfer module holds some vouchers; the deposits are for less than,
+// exactly, and more than that liquidity. A deposit either fails as a whole (it stays parked, nobody's holdings
+// change) or is consumed and its amount is with the receiver or in a packet that has left.
+func c04IBCTargetCase(seed uint64, res *core.CaseResult, verbose bool) {
+	x, err := c19Setup(seed, 1)
+	if err != nil {
+		res.Inconclusive = "setup: " + err.Error()
+		return
+	}
+	c := x.c
+	b := x.w.Bridges["eth"]
+	ch := x.loop.Pairs[0][1]
+	var chanNum int
+	fmt.Sscanf(ch, "channel-%d", &chanNum)
+	rng := core.Rng(seed, 0x1bc)
+	pool := int64(30 + rng.IntN(50))
+	// (what a voucher received over that channel earlier would have left: its denomination trace)
+	c.App.IBCTransferKeeper.SetDenomTrace(c.Ctx, transfertypes.ParseDenomTrace(fmt.Sprintf("transfer/%s/usdtx", ch)))
+	if err := c.App.BankKeeper.MintCoins(c.Ctx, transfertypes.ModuleName, sdk.NewCoins(sdk.NewCoin(x.aliasDenom, sdkmath.NewInt(pool)))); err != nil {
+		res.Inconclusive = err.Error()
+		return
+	}
+	receiver, exec := x.users[1], x.users[2]
+	holdings := func() sdkmath.Int {
+		h := c.Balance(c.Ctx, receiver.Acc(), x.usdt.Base).Add(c.Balance(c.Ctx, receiver.Acc(), x.aliasDenom))
+		return h.Add(sdkmath.NewIntFromBigInt(c.ERC20Balance(c.Ctx, x.usdt.ERC20, receiver.Hex())))
+	}
+	left := pool
+	for _, amt := range []int64{pool + 1 + int64(rng.IntN(100)), 1 + int64(rng.IntN(int(pool)-1)), 0, 1} {
+		if amt == 0 {
+			amt = left // exactly what is left
+		}
+		n, h := b.NextEvent()
+		if err := b.Quorum(b.SendToFxClaim(n, h, x.usdt.Ext["eth"], sdkmath.NewInt(amt), receiver.Hex(), receiver.Acc(), fmt.Sprintf("ibc/%d/fx", chanNum))); err != nil {
+			res.Inconclusive = "quorum: " + err.Error()
+			return
+		}
+		h0 := holdings()
+		seq0, _ := c.App.IBCKeeper.ChannelKeeper.GetNextSequenceSend(c.Ctx, transfertypes.PortID, ch)
+		er := b.ExecuteClaim(exec, n)
+		_, pending := b.K.GetPendingExecuteClaim(c.Ctx, n)
+		seq1, _ := c.App.IBCKeeper.ChannelKeeper.GetNextSequenceSend(c.Ctx, transfertypes.PortID, ch)
+		credited := holdings().Sub(h0)
+		sent := seq1 > seq0
+		what := fmt.Sprintf("deposit of %d with target ibc/%d/fx (voucher liquidity %d): execution failed=%v (%s), still parked=%v, receiver's holdings changed by %s, packet sent=%v", amt, chanNum, left, er.Failed(), short(er.VmError()), pending, credited, sent)
+		if verbose {
+			fmt.Println(what)
+		}
+		res.Count("ibc_target_deposits", 1)
+		switch {
+		case er.Failed():
+			res.Count("ibc_target_deposits_failed_as_a_whole", 1)
+			if !pending || !credited.IsZero() || sent {
+				res.Violate("C04/failed-deposit-left-effects/ibc-target", "%s", what)
+			}
+		default:
+			res.Count("ibc_target_deposits_executed", 1)
+			if pending {
+				res.Violate("C04/deposit-executed-but-still-parked/ibc-target", "%s", what)
+			}
+			if !sent && !credited.Equal(sdkmath.NewInt(amt)) {
+				res.Violate("C04/deposit-consumed-without-credit/ibc-target", "%s", what)
+			}
+			if sent {
+				left -= amt
+			}
+		}
+		c.Next()
+	}
+	res.Nontrivial = true
+}
+
 type c19Snap struct {
 	bank   map[string]string
 	erc    map[string]string
@@ -667,7 +740,14 @@ func c19Outbound(x *c19World, spec c19Spec, res *core.CaseResult, verbose bool, 
 			// a fault between send and refund: governance has switched the token's conversion off when the
 			// relayer arrives. The refund cannot be made in ERC-20 form now, so the relay has to be refused
 			// without any effect (the relayer retries later) -- or be accepted with a full ERC-20 refund.
-			toggle := &erc20types.MsgToggleTokenConversion{Authority: chain.GovAuthority(), Token: x.usdt.Base}
+			var toggle sdk.Msg = &erc20types.MsgToggleTokenConversion{Authority: chain.GovAuthority(), Token: x.usdt.Base}
+			fault, faultText := "conversion-off", "the token's conversion was switched off"
+			if rng.IntN(2) == 0 {
+				fault, faultText = "alias-removed", "the token's voucher alias for that channel was removed"
+				// ... or has removed the token's voucher alias for that channel (the same message adds it again)
+				toggle = &erc20types.MsgUpdateDenomAlias{Authority: chain.GovAuthority(), Denom: x.usdt.Base, Alias: voucher(f.pkt.SourceChannel)}
+				res.Count("relays_while_alias_removed", 1)
+			}
 			if tr := c.Msg(toggle); tr.OK() {
 				pre := c.Dump(c.Ctx)
 				r1 := relay()
@@ -677,7 +757,7 @@ func c19Outbound(x *c19World, spec c19Spec, res *core.CaseResult, verbose bool, 
 				}
 				if r1.OK() {
 					if got := new(big.Int).Sub(bal(), b0); got.Cmp(f.amt) != 0 || bankOther() != other0 {
-						res.Violate("C19/refund-wrong-form/"+f.ending+"/conversion-off"+sfx, "%s of a transfer of %s was accepted while the token's conversion was switched off: the sender's ERC-20 balance changed by %s and its coins %q -> %q (the refund must come back as ERC-20, or the relay be refused until it can)", f.ending, f.amt, got, other0, bankOther())
+						res.Violate("C19/refund-wrong-form/"+f.ending+"/"+fault+sfx, "%s of a transfer of %s was accepted while %s: the sender's ERC-20 balance changed by %s and its coins %q -> %q (the refund must come back as ERC-20, or the relay be refused until it can)", f.ending, f.amt, faultText, got, other0, bankOther())
 					}
 				} else if d := chain.Diff(pre, c.Dump(c.Ctx)); len(d) > 0 {
 					res.Violate("C19/refused-relay-had-effect/"+f.ending+sfx, "%s refused while conversion was off, but state changed: %s", f.ending, d[0].String())
